@@ -38,6 +38,11 @@ def lists():
     L["M4"] = [(sparse.csr_matrix(np.eye(n("ba"))), marg("ba") + 1.0, 1.0, ["b", "a"]), (None, marg("c"), 1.0, "c")]
     L["M5"] = [(np.eye(n("ab"))[:2], marg("ab")[:2] + 0.5, 1.0, ("a", "b"))]     # no query spans the all-ones vector: total not estimable
     L["M0"] = []                                                                   # nothing measured at all
+    # three chains over the same attributes, each with another middle attribute: an elimination order that is perfect for one
+    # (its first attribute is a leaf) starts with the MIDDLE of another one and would create a larger clique there
+    L["Cb"] = [m("ab"), m("bc", sigma=2.0)]
+    L["Cc"] = [m("ac", sigma=0.7), m("cb", sigma=2.0)]
+    L["Ca"] = [m("ba"), m("ac", sigma=1.5)]
     return L
 
 
@@ -117,11 +122,21 @@ def run(ctx, canary=False):
         rng.shuffle(e3)
         emits += e3[:1500]
     rng.shuffle(emits)
+    # every ordered pair of measurement lists occurs in the replayed sample (the rest of the budget is random)
+    seen_pairs, front, back = set(), [], []
+    for e in emits:
+        key = tuple(c["l"] for c in e["calls"][:2])
+        if len(key) == 2 and key not in seen_pairs:
+            seen_pairs.add(key); front.append(e)
+        else:
+            back.append(e)
+    emits = front + back
     ctx.extra["spec_histories"] = len(emits)
+    ctx.extra["list_pairs_replayed"] = len(front)
     fresh_cache = {}
     iters = 25
     old_cbs = []          # [list the callback appends to, its length when its own call returned, description]
-    for e in emits[: (len(emits) if thorough else 150)]:
+    for e in emits[: (len(emits) if thorough else len(front) + 60)]:
         warm = e["warm"]
         calls = e["calls"]
         info = {"warm_start": warm, "calls": calls, "iters": iters, "zeros": {"a,b": [[0, 1]]}}
